@@ -333,7 +333,7 @@ PROPS["C06"] = {
 PROPS["C14"] = {
     "level": "exploration",
     "technique": "generated concurrent programs (rapid; the C03/C06 generators incl. seeded yields and pause points, direct and over the RPC transport) executed in a -race build of server and harness; the Go race detector is the oracle",
-    "level_text": "The concurrent programs of C03 (create/remove/rename races, concurrent write/truncate/read/getattr of one file with post-operation attributes, listings during updates, truncations large enough to start background shrinkers) run in a binary built with -race, GORACE=halt_on_error=1; each run ends with a clean shutdown, a shutdown that interrupts the shrinker (nfs.Crash), or a restart while background work may still be running. Any report whose stacks are in go-nfsd or go-journal code is a violation (the report is the evidence); a report confined to harness code would be an inconclusive run. A second unit runs 2-6 clients that each look at 160 files (a working set larger than the inode cache, cold after a restart, every client starting at another file) next to clients that write, truncate and read the shared files, so that cache entries are evicted and re-filled while their inodes are locked by others. In half of the programs of both units another goroutine writes out and resets the per-procedure statistics meanwhile (what cmd/go-nfsd does on a signal or timer).",
+    "level_text": "The concurrent programs of C03 (create/remove/rename races, concurrent write/truncate/read/getattr of one file with post-operation attributes, listings during updates, truncations large enough to start background shrinkers) run in a binary built with -race, GORACE=halt_on_error=1; each run ends with a clean shutdown, a shutdown that interrupts the shrinker (nfs.Crash), or a restart while background work may still be running. Any report whose stacks are in go-nfsd or go-journal code is a violation (the report is the evidence); a report confined to harness code would be an inconclusive run. A second unit runs 2-6 clients that each look at 160 files (a working set larger than the inode cache, cold after a restart, every client starting at another file) next to clients that write, truncate and read the shared files, so that cache entries are evicted and re-filled while their inodes are locked by others. A third unit runs the enumerated two-client windows of C03 in the race build: every case in which a request is refused after it changed cached state (its transaction is aborted while the other client waits for one of its inodes, held at each lock/commit/abort point), the three-client cache-eviction family and the half-freed start states, plus a sample of the rest. In half of the programs of the first two units another goroutine writes out and resets the per-procedure statistics meanwhile (what cmd/go-nfsd does on a signal or timer).",
     "level_note": "Only schedules the detector observes; it reports races that happened, not ones that could. Race builds run 5-10x slower, hence fewer cases than C03.",
     "rule": ("unit = one concurrent program. Non-trivial: at least two operations of different clients overlap in time and touch the same name or file (so two goroutines locked the same inode). distinct = FNV hash of the history."),
     "assumptions": CONC_ASSUMPTIONS,
@@ -341,5 +341,6 @@ PROPS["C14"] = {
     "units": [
         {"test": "^TestC14Race$", "race": True, "quick": {"checks": 60, "shards": 16}, "thorough": {"checks": 3000, "shards": 16, "timeout": 7200}},
         {"test": "^TestC14BigSet$", "race": True, "quick": {"checks": 10, "shards": 16}, "thorough": {"checks": 300, "shards": 16, "timeout": 7200}},
+        {"test": "^TestC14Enum$", "race": True, "norapid": True, "quick": {"shards": 16}, "thorough": {"shards": 16, "timeout": 7200}},
     ],
 }
